@@ -7,9 +7,11 @@ M  Spectral.tla: every band tuple over 0..6 and NaN x every parameter combinatio
    NaN propagates.  Negative twins must be rejected.
 R  the complete tuple space of every index (bands 0..6 and NaN; soil_factor in {-1,-1/2,0,1/2,1}; c1, c2 in
    {0,1,6,7.5}; gain in {0,1,2.5}) laid out on rasters of every dtype uint8..float64 - also multiplied by the
-   largest power of two that keeps 6*2^k inside the input dtype (overflow edge; scale-invariant configurations) -
+   largest power of two that keeps 6*2^k inside the input dtype (overflow edge; scale-invariant configurations)
+   and, for float inputs, by 2^-k down to 2^-100 (sums far below float32 eps, still normal numbers) -
    through the real functions; Spectral_Judge.tla decides every cell against the exact rational.
-   true_color: red values x nodata x dtypes, alpha / dtype / shape decided by TLC.
+   true_color: red values x nodata x dtypes, bands without spread, 1x1 / 1xN rasters; alpha / dtype / shape
+   decided by TLC.
 T  seeded float rasters: antisymmetry and power-of-two invariance bit-exactly, range, NaN iff undefined.
 """
 import itertools
@@ -307,7 +309,8 @@ META = {
                   "the published formula (argument-to-slot binding included), NaN exactly where undefined, never "
                   "+-inf, normalised differences in [-1,1], antisymmetry, 2^k invariance, NaN propagation; broken "
                   "twins are rejected. The complete tuple space is then laid out on rasters of every dtype "
-                  "(uint8..float64, also at the integer overflow edge) and run through the real functions; "
+                  "(uint8..float64, also at the integer overflow edge and scaled down by 2^-k on float inputs) and run "
+                  "through the real functions; "
                   "Spectral_Judge.tla compares every cell with the exact rational; true_color's alpha rule, dtype and "
                   "shape likewise; seeded float rasters check the symmetries bit-exactly. Exhaustive on the tuple "
                   "space, sampled beyond it.",
